@@ -459,6 +459,7 @@ impl<'a> Gen<'a> {
             l.visit_block_mut(block);
             fo.lowered_sites = l.sites;
             rules::alpha_rename(block, &mut self.rules);
+            rules::alpha_rename_sig(sig, &mut self.rules);
             let mut hints = vec![];
             {
                 let mut mk = Marker { spec: &spec, loop_n: 0, hint_n: self.hint_base, hints: &mut hints, probes: self.probes, probe_n: &mut self.probe_n, fn_probes: vec![], return_points: 0, hoist_n: 0, dead_probes: vec![], features: self.features.to_vec(), ret_ty: match &sig.output { syn::ReturnType::Type(_, t) if !matches!(**t, syn::Type::ImplTrait(_)) => Some((**t).clone()), _ => None } };
@@ -494,6 +495,61 @@ impl<'a> Gen<'a> {
             cfgstrip::strip_file(&mut file, self.features);
             for take in takes {
                 let mut matched = false;
+                // ---- rule C and shape obligations work on a function found by path
+                if let Take::Closure { fn_path, .. } | Take::Shape { fn_path, .. } = take {
+                    let (ty, fname) = fn_path.split_once("::").expect("Type::fn");
+                    let mut target: Option<syn::ImplItemFn> = None;
+                    for item in &file.items { if let Item::Impl(imp) = item { if imp.trait_.is_none() && norm(&imp.self_ty.to_token_stream().to_string()) == ty {
+                        for ii in &imp.items { if let syn::ImplItem::Fn(f) = ii { if f.sig.ident == fname { target = Some(f.clone()); } } } } } }
+                    let Some(tf) = target else { eprintln!("vx: LOST ANCHOR: fn {} not found in {}", fn_path, src); std::process::exit(2) };
+                    // outermost closures in syntactic order
+                    struct Cl { found: Vec<syn::ExprClosure> }
+                    impl<'ast> syn::visit::Visit<'ast> for Cl { fn visit_expr_closure(&mut self, c: &'ast syn::ExprClosure) { self.found.push(c.clone()); } }
+                    let mut cl = Cl { found: vec![] };
+                    syn::visit::Visit::visit_block(&mut cl, &tf.block);
+                    match take {
+                        Take::Closure { index, new_path, sig, .. } => {
+                            let Some(c) = cl.found.get(*index) else { eprintln!("vx: LOST ANCHOR: {} has no closure #{}", fn_path, index); std::process::exit(2) };
+                            let (nty, nname) = new_path.split_once("::").unwrap();
+                            let body = &c.body;
+                            let fn_text = format!("pub fn {} {} {{ {} }}", nname, sig, body.to_token_stream());
+                            let mut nf: syn::ImplItemFn = match syn::parse_str(&fn_text) { Ok(f) => f, Err(e) => { eprintln!("vx: cannot build lifted closure {}: {}", new_path, e); std::process::exit(2) } };
+                            // every identifier bound by the closure's parameter patterns must be a parameter of the lifted function
+                            struct Ids(Vec<String>);
+                            impl<'ast> syn::visit::Visit<'ast> for Ids { fn visit_pat_ident(&mut self, p: &'ast syn::PatIdent) { self.0.push(p.ident.to_string()); } }
+                            let mut ids = Ids(vec![]);
+                            for p in c.inputs.iter() { syn::visit::Visit::visit_pat(&mut ids, p); }
+                            let params: Vec<String> = nf.sig.inputs.iter().filter_map(|a| if let syn::FnArg::Typed(pt) = a { Some(pt.pat.to_token_stream().to_string()) } else { None }).collect();
+                            for id in &ids.0 { if !id.starts_with('_') && !params.contains(id) && !params.contains(&format!("{}_", id)) { eprintln!("vx: LOST ANCHOR: closure #{} of {} binds `{}` which is not a parameter of {}", index, fn_path, id, new_path); std::process::exit(2); } }
+                            // span for the source line: the closure's own position
+                            let line = c.or1_token.span.start().line;
+                            let mut attrs = vec![];
+                            self.process_fn(unit, contract_only, src, Some(nty), &mut attrs, &mut nf.sig, &mut nf.block, &None);
+                            if let Some(fo) = self.fns.last_mut() { fo.src_line = line; }
+                            nf.attrs = attrs;
+                            let nty_t: syn::Type = syn::parse_str(nty).unwrap();
+                            let imp: syn::ItemImpl = parse_quote!(impl #nty_t { #nf });
+                            imp.to_tokens(&mut self.items_ts);
+                            *self.rules.dropped.entry("C:lifted-closure".into()).or_default() += 1;
+                        }
+                        Take::Shape { props, expected, .. } => {
+                            if !contract_only {
+                                // body text with outermost closures replaced by __Ck__
+                                struct Rep { k: usize }
+                                impl VisitMut for Rep { fn visit_expr_mut(&mut self, e: &mut Expr) { if let Expr::Closure(_) = e { let id = quote::format_ident!("__C{}__", self.k); self.k += 1; *e = parse_quote!(#id); } else { visit_mut::visit_expr_mut(self, e); } } }
+                                let mut b = tf.block.clone();
+                                rules::strip_logging(&mut b);
+                                Rep { k: 0 }.visit_block_mut(&mut b);
+                                let got = norm(&b.to_token_stream().to_string());
+                                let ok = got == *expected;
+                                if !ok { eprintln!("vx: note: shape of {} is\n  {}\nexpected\n  {}", fn_path, got, expected); }
+                                self.shape_results.push((format!("{}::shape-body", fn_path), ok, props.clone(), format!("{}:{}", src, tf.sig.ident.span().start().line)));
+                            }
+                        }
+                        _ => {}
+                    }
+                    continue;
+                }
                 for item in &file.items {
                     let mut item = item.clone();
                     match (&mut item, take) {
